@@ -80,7 +80,7 @@ def install(ctx, repo, probes):
             return
         want = ia - ib
         prob = None
-        if type(d) is not repo.Duration:
+        if not isinstance(d, repo.Duration) or isinstance(d, repo.TimeZone):
             prob = "result is %s, not a Duration" % type(d).__name__
         elif d._years or d._months or d._weeks is not None:
             prob = "result has nominal or week components"
